@@ -142,7 +142,7 @@ PROPS = {
                                            "inbound MTU 1600 and 1200, 25 boundary lengths plus random ones up to 9000, single datagrams and bursts of 3-8 that arrive before the application reads; "
                                            "every arrival must be byte-identical to something sent in that direction for that endpoint, once, truthfully attributed; within the limits it must have arrived when the execution settles"]),
     "C06": dict(title="allocation lifetime, refresh and deletion are exact", level="model_checking",
-                run=core_run(["MC_time"], ["GEN_time", "GEN_users", "GEN_relayA"]),
+                run=core_run(["MC_time", "MC_life"], ["GEN_time", "GEN_users", "GEN_relayA", "GEN_lifeA"]),
                 assumptions=BASE_ASSUME),
     "C07": dict(title="permissions and channels live one full timeout past their last refresh", level="model_checking",
                 run=core_run(["MC_relay", "MC_relayB", "MC_steps"], ["GEN_relayA", "GEN_relayB", "GEN_steps"]),
@@ -152,7 +152,7 @@ PROPS = {
                 assumptions=BASE_ASSUME),
     "C09": dict(title="no input can crash, wedge or spin an endpoint", level="exploration",
                 run=core_run(["MC_disp_serverudp", "MC_disp_serverstream", "MC_disp_client", "MC_framer"],
-                             ["GEN_disp_serverudp", "GEN_disp_serverstream", "GEN_disp_client", "GEN_framer"]),
+                             ["GEN_disp_serverudp", "GEN_disp_serverstream", "GEN_disp_client", "GEN_framer", "GEN_tcpB", "GEN_auth"]),
                 assumptions=["Dispatch.tla is a decision table over message SHAPES (36 for the datagram listener, 13 for the stream listener, 22 for the client's HandleInbound) in three endpoint states; "
                              "TLC enumerates shape x state, the harness concretises each shape to bytes (free bytes from the seed) and compares the outcome class (answer + pinned code / relayed / silent / stream closed; handled, error)",
                              "after every delivery a liveness probe: a Binding transaction from the same and from another party (server), the client's own Binding transaction (client); a real-time watchdog turns a spin or a stuck goroutine into a verdict",
@@ -196,7 +196,7 @@ PROPS = {
                              "'at once' is read as: at once on a loss-free network, and within one transaction (8 s) when transmissions are lost",
                              "'any number of peers' is not explored (4 peers); with several hundred peers the permission refresh exceeds the server's inbound MTU (observation D13 in DESIGN.md)"]),
     "C15": dict(title="server resources and lifecycle events balance through every teardown", level="model_checking",
-                run=core_run(["MC_life", "MC_tcp", "MC_steps"], ["GEN_lifeA", "GEN_lifeB", "GEN_tcpB", "GEN_steps"]),
+                run=core_run(["MC_life", "MC_tcp", "MC_steps", "MC_resv"], ["GEN_lifeA", "GEN_lifeB", "GEN_tcpB", "GEN_steps", "GEN_resv"]),
                 assumptions=BASE_ASSUME + ["after every step the lifecycle callbacks made during the step are compared with the spec's EvDiff (created/deleted events per allocation, permission, channel), "
                                            "the relay sockets handed out by the harness generator with the live allocations (open count, closed at most once)",
                                            "every path ends with Server.Close followed by a two-hour drain: created - deleted must be 0 for every key, AllocationCount 0, every relay socket closed, and no lifecycle event may arrive late (a timer that outlived its allocation); "
